@@ -31,6 +31,19 @@ OPS_FLAGS = [0, SQE128, CQE32, SQE128 | CQE32, COOP, COOP | TASKRUN_FLAG, SINGLE
 DROP_GUARDS_SINGLE_MMAP = "TRUE"
 
 
+# verdicts that rest on a wall-clock limit of the driver (how long it waits for a completion / for the ring to drain)
+TIME_CLAUSES = {"missing_completion", "completion_with_unknown_user_data", "slot_refused_on_drained_ring"}
+
+
+def wait_scale():
+    """factor for every wall-clock limit of a re-run: at least 5, more when the machine is oversubscribed"""
+    try:
+        load = os.getloadavg()[0]
+    except OSError:
+        load = 0.0
+    return round(5 * max(1.0, load / (os.cpu_count() or 1)), 1)
+
+
 def tlc_cfg(path, consts, init, nxt, invariants=(), properties=()):
     with open(path, "w") as f:
         f.write("CONSTANTS\n" + "".join("  %s = %s\n" % kv for kv in consts.items()))
@@ -193,10 +206,10 @@ def sock_scripts(work, maxq):
     return res, g.nedges, scripts
 
 
-def run_driver(bindir, batches_path, root, entries, flags, timeout=900, mode="run", prefix=(), extra=()):
+def run_driver(bindir, batches_path, root, entries, flags, timeout=900, mode="run", prefix=(), extra=(), env=None):
     shutil.rmtree(root, ignore_errors=True)
     os.makedirs(root)
-    p = core.run_cmd(list(prefix) + [os.path.join(bindir, "uring_ops"), mode, batches_path, root, str(entries), str(flags)] + [str(x) for x in extra], timeout=timeout, check=False)
+    p = core.run_cmd(list(prefix) + [os.path.join(bindir, "uring_ops"), mode, batches_path, root, str(entries), str(flags)] + [str(x) for x in extra], timeout=timeout, check=False, env=env)
     recs = [json.loads(l) for l in p.stdout.splitlines() if l.startswith("{") and l.endswith("}")]
     if p.returncode != 0:
         # a crash of the driver process is data if the run was rejected before (decided by the caller)
@@ -260,14 +273,14 @@ def culprit(rec, clause):
 LINE = re.compile(r"^(\d+)\s+(\w+)\((.*)\)\s+= (0x[0-9a-f]+|-?\d+)")
 
 
-def strace_teardown(chk, bindir, entries, flags, with_op, run_id):
+def strace_teardown(chk, bindir, entries, flags, with_op, run_id, env=None):
     """set-up (+ one op / one lap over the whole ring) + drop in a child process under strace.  with_op: False, True or "lap".
     -> (events for UringResTrace or None if the kernel refused the set-up, records printed by the child).
     A child killed by a signal is data: a `crashed` event."""
     log = os.path.join(chk.work, "strace_%d.txt" % run_id)
     mode = "2" if with_op == "lap" else ("1" if with_op else "0")
     p = core.run_cmd(["strace", "-f", "-e", "trace=io_uring_setup,mmap,munmap,close,write", "-o", log,
-                      os.path.join(bindir, "uring_ops"), "teardown", str(entries), str(flags), mode], timeout=180, check=False)
+                      os.path.join(bindir, "uring_ops"), "teardown", str(entries), str(flags), mode], timeout=900, check=False, env=env)
     out = [json.loads(l) for l in p.stdout.splitlines() if l.startswith("{") and l.endswith("}")]
     logtxt = open(log).read()
     killed = re.search(r"\+\+\+ killed by (\w+)", logtxt)
@@ -389,7 +402,7 @@ def run(tier):
             k += 1
             plan.append(("walk%d" % size, size, fl, [dict(b=i, reset=(i == 0), ops=b) for i, b in enumerate(w)]))
     # the completion count of a timeout: fires early (result 0) once another completion of the batch was posted, else -ETIME
-    cnt_batches = [[{"op": "timeout", "abs": a, "cnt": 1, "link": False}, {"op": "statx", "dir": 0, "name": 0, "link": False}] for a in (3, 2)] + \
+    cnt_batches = [[{"op": "timeout", "abs": a, "cnt": 1, "link": False}, {"op": "statx", "dir": 0, "name": 0, "link": False}] for a in (4, 5)] + \
                   [[{"op": "timeout", "abs": a, "cnt": 1, "link": False}] for a in (3, 2, 1)]
     plan.append(("timeout_count", 8, 0, [dict(b=i, reset=(i == 0), ops=b) for i, b in enumerate(cnt_batches)]))
     # a polling thread that has gone idle (sq_thread_idle = 50 ms): the caller follows the wake-up protocol (enter with
@@ -495,11 +508,21 @@ def run(tier):
     with cf.ThreadPoolExecutor(max_workers=4) as pool:
         results = list(pool.map(lambda ic: judge_batches(chk, ic[1], "c%d" % ic[0]), enumerate(chunks)))
     nbad = 0
+    deferred = {}       # tag -> violations that rest on a wall-clock limit, to be re-confirmed in isolation
+    real_violate = chk.violate
+
+    def violate_or_defer(sig, what, replay, _tag=[None]):
+        if sig.get("clause") in TIME_CLAUSES:
+            deferred.setdefault(_tag[0], []).append((sig, what, replay))
+        else:
+            real_violate(sig, what, replay)
+    chk.violate = violate_or_defer
     for ci, (res, bad) in enumerate(results):
         chk.add_tlc(res)
         for i, clause in bad.items():
             rec = allrecs[ci * B + i]
             tag, entries, flags = meta[ci * B + i]
+            violate_or_defer.__defaults__[0][0] = tag
             if rec["ev"] == "constant":
                 nbad += 1
                 chk.violate({"part": "constants", "clause": clause, "name": rec["name"]}, "%s: %s is %d in the library, %d in the kernel's uapi header" % (clause, rec["name"], rec["lib"], rec["uapi"]),
@@ -523,7 +546,47 @@ def run(tier):
                         {"part": "ops", "entries": entries, "flags": flags, "record": rec, "clause": clause,
                          "script": scripts[rec["run"]]["steps"][:rec["b"] + 1] if tag == "sock" else None,
                          "note": "batches of one ring share an evolving world; replay re-runs this batch on a freshly reset world"})
+    chk.violate = real_violate
+    # ---- a wall-clock limit that tripped is no verdict yet: the scenario is re-run ALONE (nothing else of this check runs
+    # now), twice, with every limit of the driver multiplied by >= 5 (more on an oversubscribed machine); only a trip
+    # reproduced in both re-runs is reported
+    plan_by_tag = {item[0]: item for item in plan}
+    not_reproduced = []
+
+    def trips_again(tag):
+        env = {"VERIF_WAIT_SCALE": str(wait_scale())}
+        if tag in plan_by_tag:
+            item = plan_by_tag[tag]
+            bp = os.path.join(chk.work, "batches_rerun.ndjson")
+            core.write_ndjson(bp, item[3])
+            recs = run_driver(bindir, bp, root, item[1], item[2], prefix=(item[4] if len(item) > 4 else ()), extra=(item[5] if len(item) > 5 else ()), env=env, timeout=3000)
+        elif tag == "sock":
+            sp = os.path.join(chk.work, "sock_rerun.ndjson")
+            core.write_ndjson(sp, scripts)
+            recs = run_driver(bindir, sp, root, 8, 0, mode="sock", env=env, timeout=3000)
+        elif tag == "sqpoll_cq_overflow_idle":
+            pr = core.run_cmd([os.path.join(bindir, "uring_ops"), "overflow"], timeout=600, check=False, env=env)
+            recs = [json.loads(l) for l in pr.stdout.splitlines() if l.startswith("{")]
+        else:
+            return True
+        recs = [r for r in recs if r["ev"] in ("batch", "lap")]
+        if not recs:
+            return True
+        gres, gb = judge_batches(chk, recs, "rerun")
+        chk.add_tlc(gres)
+        return any(c in TIME_CLAUSES for c in gb.values())
+
+    for tag, vs in deferred.items():
+        if trips_again(tag) and trips_again(tag):
+            for v in vs:
+                chk.violate(*v)
+        else:
+            nbad -= len(vs)
+            not_reproduced.append({"scenario": tag, "clauses": sorted({v[0]["clause"] for v in vs}), "occurrences": len(vs), "first": vs[0][1][:300]})
+    chk.extra["wall_clock_trips_not_reproduced"] = not_reproduced
     for tag, why in aborted.items():
+        if tag in {n["scenario"] for n in not_reproduced}:
+            continue
         if not any(meta[ci * B + i][0] == tag for ci, (_, bad) in enumerate(results) for i in bad):
             raise core.ToolError("uring_ops gave up on %s (%s) although no batch of that run was rejected" % (tag, why))
     chk.extra["driver_runs_aborted_after_rejections"] = aborted
@@ -566,6 +629,16 @@ def run(tier):
         for i, clause in gbad.items():
             rec = tgeo[i]
             if rec["ev"] == "lap":
+                if clause in TIME_CLAUSES:
+                    again = 0
+                    for _ in range(2):
+                        _, o2 = strace_teardown(chk, bindir, rec["n"], 0, "lap", 9000, env={"VERIF_WAIT_SCALE": str(wait_scale())})
+                        l2 = [o for o in o2 if o["ev"] == "lap"]
+                        if l2 and any(c in TIME_CLAUSES for c in judge_batches(chk, l2, "laprerun")[1].values()):
+                            again += 1
+                    if again < 2:
+                        chk.extra.setdefault("wall_clock_trips_not_reproduced", []).append({"scenario": "lap over %d entries" % rec["n"], "clauses": [clause], "occurrences": 1})
+                        continue
                 chk.violate({"part": "lap", "clause": clause}, "%s: one lap over a ring of %d entries: %s" % (clause, rec["n"], rec),
                             {"part": "teardown", "entries": rec["n"], "flags": 0, "with_op": "lap", "record": rec, "clause": clause})
                 continue
@@ -604,6 +677,7 @@ def run(tier):
         "unlinked operations of one batch are generated independent (no shared name or handle) because the kernel may run them in any order; inside IOSQE_IO_LINK chains operations may depend on each other",
         "socket operations (connect/accept/sendmsg/recvmsg on unix stream sockets, SCM_RIGHTS) follow scripts toured from UringSock.tla in which no step can block; a script is cut at the first step where ring and direct call disagree",
         "not covered: readv/writev fixed, inet accept, multishot poll, SQPOLL idle/wakeup races, IOPOLL rings for operations (set-up/teardown only)",
+        "verdicts that rest on a wall-clock limit of the driver (missing / late completion, ring not drained) are reported only if the scenario trips again in two re-runs done alone with every limit multiplied by at least 5 (more on an oversubscribed machine); otherwise they are listed under wall_clock_trips_not_reproduced; lower bounds on timeouts are the only timing facts compared",
         "teardown is observed with strace on single-threaded runs; what a second munmap of the same range can hit in a threaded program is shown on the model (UringRes.tla, NothingElse)",
     ]
     return chk.finish()
